@@ -10,6 +10,7 @@ CONSTANTS
   Eons <- cEons
   MaxDepth = 6
   Emit = FALSE
+  TagMode = "none"
 SPECIFICATION Spec2
 INVARIANT C09_Agree
 VIEW View2
